@@ -198,3 +198,5 @@ Proof.
     + eapply Hfail; [exact L0 | exact H].
     + eapply AK_trans; [exact L0 | eapply IH; exact H].
 Qed.
+
+Print Assumptions task_failed_AK.
